@@ -48,6 +48,10 @@ type c09Spec struct {
 	// PausesS: the i-th "ok" reconnect is answered 200 at once, but the server has nothing to say on the resumed
 	// stream for this many seconds (a slow tool); then the body is served as scripted
 	PausesS []int `json:"pauses_s,omitempty"`
+	// Standalone: the server also serves the standalone GET stream (it stays open and silent until the client
+	// goes away); NoSID: it assigns no session id (the spec says MAY). Closing the session must end that stream.
+	Standalone bool `json:"standalone,omitempty"`
+	NoSID      bool `json:"no_session_id,omitempty"`
 }
 
 func genC09(r *vh.Rand) c09Spec {
@@ -92,6 +96,9 @@ func genC09(r *vh.Rand) c09Spec {
 		}
 		s.Reconnects = append(s.Reconnects, "ok")
 		s.Cuts = append(s.Cuts, c09Cut{At: -1})
+	}
+	if r.Chance(1, 4) {
+		s.Standalone, s.NoSID = true, r.Bool()
 	}
 	if r.Chance(1, 5) {
 		s.PausesS = make([]int, len(s.Reconnects))
@@ -275,6 +282,13 @@ func (s *c09Server) RoundTrip(req *http.Request) (*http.Response, error) {
 	case "GET":
 		leid := req.Header.Get("Last-Event-ID")
 		if leid == "" {
+			if s.spec.Standalone {
+				// a standalone stream that stays open and silent; it ends when the client's request does
+				pr, pw := io.Pipe()
+				context.AfterFunc(req.Context(), func() { pw.CloseWithError(req.Context().Err()) })
+				s.c.Log.Add("standalone-opened")
+				return s.resp(req, 200, "text/event-stream", pr, nil), nil
+			}
 			return s.resp(req, 405, "", http.NoBody, nil), nil // no standalone stream
 		}
 		s.leids = append(s.leids, leid)
@@ -352,7 +366,11 @@ func (s *c09Server) RoundTrip(req *http.Request) (*http.Response, error) {
 	json.Unmarshal(body, &m)
 	switch {
 	case m.Method == "initialize":
-		return s.resp(req, 200, "application/json", io.NopCloser(strings.NewReader(fmt.Sprintf(`{"jsonrpc":"2.0","id":%s,"result":%s}`, m.ID, vhm.InitializeResultJSON("2025-11-25")))), map[string]string{"Mcp-Session-Id": "sess-1"}), nil
+		hdr := map[string]string{"Mcp-Session-Id": "sess-1"}
+		if s.spec.NoSID {
+			hdr = nil
+		}
+		return s.resp(req, 200, "application/json", io.NopCloser(strings.NewReader(fmt.Sprintf(`{"jsonrpc":"2.0","id":%s,"result":%s}`, m.ID, vhm.InitializeResultJSON("2025-11-25")))), hdr), nil
 	case m.Method == "tools/call":
 		s.build(m.ID, m.Params.Meta["progressToken"])
 		return s.resp(req, 200, s.ctype(), s.serve(req.Context(), 0, s.spec.FirstCut, 0), nil), nil
